@@ -199,6 +199,10 @@ func (c *AbstractTokenizer) ReadNextToken() *Token {
 		// Nothing is carried over from a token skipped in the previous iteration
 		token = nil
 
+		// A token that follows skipped tokens reports its own position
+		line = c.Scanner.PeekLine()
+		column = c.Scanner.PeekColumn()
+
 		// Read character
 		nextChar := c.Scanner.Peek()
 
